@@ -4,6 +4,7 @@ import (
 	"fmt"
 	"go/token"
 	"go/types"
+	"sort"
 	"strings"
 
 	"golang.org/x/tools/go/ssa"
@@ -46,6 +47,9 @@ func (fv *FV) call(st *State, x *ssa.Call) *State {
 	if sv.K == VClosure {
 		return fv.staticCall(st, x, sv.Fn, sv.Binds)
 	}
+	if targets := fv.eng.funcTargets(c.Value.Type()); len(targets) > 0 && fv.functypeSpec(c.Value.Type()) == nil {
+		return fv.dynDispatch(st, x, sv, targets)
+	}
 	if spec := fv.functypeSpec(c.Value.Type()); spec != nil {
 		fnv := fv.term(st, sv, c.Value.Type())
 		fv.oblige(st, "nil", "funcvalue", x.Pos(), tNot(tEq(Term{S: "(pv_fid " + fnv.S + ")", Sort: SInt}, mkInt(0))), "")
@@ -78,6 +82,9 @@ func (fv *FV) setCallResult(st *State, x *ssa.Call, res []Term) {
 
 func (fv *FV) unmodelledCall(st *State, x *ssa.Call, what string) {
 	fv.unmodelled[what] = true
+	for k := range st.local {
+		st.escape(k)
+	}
 	fv.havocAll(st)
 	sig := x.Common().Signature()
 	var res []Term
@@ -193,6 +200,9 @@ func (fv *FV) callByContract(st *State, fn *ssa.Function, spec *FuncSpec, c *ssa
 func (fv *FV) applyContract(st *State, spec *FuncSpec, fn *ssa.Function, c *ssa.CallCommon, args []Term, pos token.Pos, sig *types.Signature) []Term {
 	spec.Used = true
 	fv.calleesByContract[spec.Key] = true
+	for _, a := range args {
+		st.escapeTerm(a)
+	}
 	if spec.Kind != "extern" {
 		fv.checkTypeInvs(st, pos)
 	}
@@ -240,13 +250,13 @@ func (fv *FV) applyContract(st *State, spec *FuncSpec, fn *ssa.Function, c *ssa.
 		fv.oblige(st, "pre", short+":"+clauseName(cl, i), pos, g, cl.Text)
 	}
 	// termination of recursion: callee measure strictly below the caller's entry measure
-	if fn != nil && fn == fv.fn && len(spec.Decreases) > 0 {
+	if fn != nil && len(spec.Decreases) > 0 && fv.spec != nil && len(fv.spec.Decreases) == len(spec.Decreases) && (fn == fv.fn || fv.spec.Mutual) {
 		var cur, old []Term
 		ent := fv.entryEnv(st, &errs)
 		ent.heap, ent.epoch = map[string]Term{}, 0
-		for _, d := range spec.Decreases {
+		for i, d := range spec.Decreases {
 			cur = append(cur, pre.Eval(d.E))
-			old = append(old, ent.Eval(d.E))
+			old = append(old, ent.Eval(fv.spec.Decreases[i].E))
 		}
 		fv.oblige(st, "dec", "recursion", pos, lexLess(cur, old), spec.Decreases[0].Text)
 	}
@@ -370,7 +380,14 @@ func (fv *FV) havocTarget(st *State, env *Env, a *Clause, spec *FuncSpec, pos to
 				return
 			}
 			for i, n := range names {
-				st.heap[n] = fv.freshConst(st, "hv_"+n, sorts[i], nil)
+				old := fv.heapGet(st.heap, st.epoch, n, sorts[i])
+				nh := fv.freshConst(st, "hv_"+n, sorts[i], nil)
+				// the callee cannot reach objects of this activation that have not escaped
+				_, vs := arrayParts(sorts[i])
+				for _, l := range sortedKeys(st.local) {
+					st.assume(tEq(tSelect(nh, Term{S: l, Sort: SInt}, vs), tSelect(old, Term{S: l, Sort: SInt}, vs)))
+				}
+				st.heap[n] = nh
 			}
 			return
 		}
@@ -575,6 +592,12 @@ func (fv *FV) builtin(st *State, x *ssa.Call, b *ssa.Builtin) {
 		tl := fmt.Sprintf("(%s_len %s)", t.Sort, t.S)
 		st.assume(Term{S: fmt.Sprintf("(forall ((%s Int)) (! (and (=> (and (<= 0 %s) (< %s %s)) (= (select %s %s) (select (%s_arr %s) %s))) (=> (and (<= %s %s) (< %s (+ %s %s))) (= (select %s %s) (select (%s_arr %s) (- %s %s))))) :pattern ((select %s %s))))",
 			q, q, q, sl, na.S, q, s.Sort, s.S, q, sl, q, q, sl, tl, na.S, q, t.Sort, t.S, q, sl, na.S, q), Sort: SBool})
+		if m := append(st.mentions(s.S), st.mentions(t.S)...); len(m) > 0 {
+			if st.aliases == nil {
+				st.aliases = map[string][]string{}
+			}
+			st.aliases[na.S] = m
+		}
 		r := Term{S: fmt.Sprintf("(%s_mk %s (+ %s %s))", s.Sort, na.S, sl, tl), Sort: s.Sort, T: x.Type()}
 		st.frame.Regs[x] = tv(fv.def(st, "appended", r))
 	case "ssa:wrapnilchk":
@@ -618,4 +641,140 @@ func (fv *FV) wildMaps() map[string]bool {
 		}
 	}
 	return out
+}
+
+// ---- calls through function tables (named func types with a statically known target set) ----
+
+type fnTarget struct {
+	Fn      *ssa.Function // the function that runs
+	HasRecv bool          // bound method: receiver = pv_frecv of the value
+	FidOf   *ssa.Function // function whose id the value carries (the $bound wrapper or Fn itself)
+}
+
+// funcTargets: every function converted to the named func type t anywhere in t's package.
+func (e *Engine) funcTargets(t types.Type) []fnTarget {
+	n, ok := t.(*types.Named)
+	if !ok || n.Obj().Pkg() == nil {
+		return nil
+	}
+	if _, ok := n.Underlying().(*types.Signature); !ok {
+		return nil
+	}
+	key := n.Obj().Pkg().Path() + "." + n.Obj().Name()
+	if e.targets == nil {
+		e.targets = map[string][]fnTarget{}
+	}
+	if ts, ok := e.targets[key]; ok {
+		return ts
+	}
+	var out []fnTarget
+	seen := map[*ssa.Function]bool{}
+	add := func(v ssa.Value) {
+		var f *ssa.Function
+		switch y := v.(type) {
+		case *ssa.MakeClosure:
+			f = y.Fn.(*ssa.Function)
+		case *ssa.Function:
+			f = y
+		}
+		if f == nil || seen[f] {
+			return
+		}
+		seen[f] = true
+		tg := fnTarget{Fn: f, FidOf: f}
+		if f.Synthetic != "" && strings.HasSuffix(f.Name(), "$bound") {
+			for _, b := range f.Blocks {
+				for _, in := range b.Instrs {
+					if c, ok := in.(*ssa.Call); ok && c.Common().StaticCallee() != nil {
+						tg.Fn = c.Common().StaticCallee()
+						tg.HasRecv = true
+					}
+				}
+			}
+		}
+		out = append(out, tg)
+	}
+	for _, sp := range e.spkgs {
+		if sp == nil || sp.Pkg.Path() != n.Obj().Pkg().Path() {
+			continue
+		}
+		var fns []*ssa.Function
+		for _, m := range sp.Members {
+			if f, ok := m.(*ssa.Function); ok {
+				fns = append(fns, f)
+			}
+		}
+		for _, f := range e.funcs {
+			if f.Pkg == sp || (f.Parent() != nil && f.Parent().Pkg == sp) {
+				fns = append(fns, f)
+			}
+		}
+		for _, f := range fns {
+			for _, b := range f.Blocks {
+				for _, in := range b.Instrs {
+					if ct, ok := in.(*ssa.ChangeType); ok && types.Identical(ct.Type(), t) {
+						add(ct.X)
+					}
+				}
+			}
+		}
+	}
+	sort.Slice(out, func(i, j int) bool { return out[i].Fn.Pos() < out[j].Fn.Pos() })
+	e.targets[key] = out
+	return out
+}
+
+// boundTo: f is one of the registered targets of its func type, bound to receiver p where it has one.
+func (fv *FV) boundTo(f Term, p Term, targets []fnTarget) Term {
+	var alts []Term
+	fid := Term{S: "(pv_fid " + f.S + ")", Sort: SInt}
+	recv := Term{S: "(pv_frecv " + f.S + ")", Sort: SInt}
+	for _, tg := range targets {
+		c := tEq(fid, mkInt(int64(fv.eng.fid(tg.FidOf))))
+		if tg.HasRecv {
+			c = tAnd(c, tEq(recv, p))
+		}
+		alts = append(alts, c)
+	}
+	return tOr(alts...)
+}
+
+func (fv *FV) dynDispatch(st *State, x *ssa.Call, sv SymVal, targets []fnTarget) *State {
+	c := x.Common()
+	fnv := fv.term(st, sv, c.Value.Type())
+	fid := Term{S: "(pv_fid " + fnv.S + ")", Sort: SInt}
+	fv.oblige(st, "nil", "funcvalue", x.Pos(), tNot(tEq(fid, mkInt(0))), "")
+	var idAlts []Term
+	for _, tg := range targets {
+		idAlts = append(idAlts, tEq(fid, mkInt(int64(fv.eng.fid(tg.FidOf)))))
+	}
+	fv.oblige(st, "dyn-target", typeShort(c.Value.Type()), x.Pos(), tOr(idAlts...), "the called value is one of the functions registered for this func type")
+	var args []SymVal
+	for _, a := range c.Args {
+		args = append(args, fv.val(st, a))
+	}
+	// one path per target; the first continues in st, the others are queued as forks
+	var first *State
+	for i, tg := range targets {
+		ns := st
+		if i < len(targets)-1 {
+			ns = st.clone()
+		}
+		ns.assume(tEq(fid, mkInt(int64(fv.eng.fid(tg.FidOf)))))
+		ns.path += fmt.Sprintf("D%d", i)
+		full := args
+		if tg.HasRecv {
+			recv := Term{S: "(pv_frecv " + fnv.S + ")", Sort: SInt, T: tg.Fn.Params[0].Type()}
+			recv = fv.def(ns, "recv", recv)
+			ns.assume(fv.isAlloc(ns.heap, ns.epoch, recv))
+			full = append([]SymVal{tv(recv)}, args...)
+		}
+		res := fv.callFn(ns, x, tg.Fn, nil, full)
+		if i == len(targets)-1 {
+			first = res
+		} else if res != nil {
+			fv.pendingForks = append(fv.pendingForks, res)
+		}
+	}
+	return first
 }
